@@ -62,15 +62,27 @@ def run(chk):
                 rgs.insert(chk.rng.randrange(len(rgs) + 1), [])
             codecs = [chk.rng.choice([0, 2]) for _ in z.cols]
             rtxt = "/".join(";".join(z.proj(r) for r in g) for g in rgs)
-            fops.append("specwrite %s %s %s %d - %s" % (z.cols_text, ",".join(map(str, codecs)), ["sx", "x", "sex", "sxn"][i % 4], chk.rng.randrange(1 << 30), rtxt))
+            fops.append("specwrite %s %s %s %d - %s" % (z.cols_text, ",".join(map(str, codecs)), ["sx", "xo", "sexO", "sxn", "xO", "sxo"][i % 6], chk.rng.randrange(1 << 30), rtxt))
             fz.append(z)
-    for z, op, r in zip(fz, fops, common.chunked_parallel(pair.model, fops, workers=8, chunk=2)):
+    # files with file_offset = 0 / past the chunk: the independent walk (which insists on file_offset = chunk start) is
+    # run on the twin written with the same choices and file_offset = chunk start: the pages, hence the headers, are the same
+    def twin(op):
+        p_ = op.split(" ")
+        p_[3] = p_[3].replace("o", "").replace("O", "")
+        return " ".join(p_)
+    tw_ops = [twin(op) for op in fops]
+    fres = common.chunked_parallel(pair.model, fops, workers=8, chunk=2)
+    tres = common.chunked_parallel(pair.model, tw_ops, workers=8, chunk=2)
+    for z, op, top, r, tr in zip(fz, fops, tw_ops, fres, tres):
         f = (r.split(" ") + ["-"])[:2]
         if len(f[0]) > 16:
-            cases.append(Foreign(z, op, f[0], f[1]))
+            c = Foreign(z, op, f[0], f[1])
+            if top != op:
+                c.walk_file, c.skip_meta = tr.split(" ")[0], True
+            cases.append(c)
     tabtxt = lambda d: ",".join("%s=%s" % kv for kv in d.items()) or "-"
     par = lambda f, ops: common.chunked_parallel(f, ops, workers=8, chunk=50)
-    walk = par(pair.model, ["walk %s %d %s %s" % (c.zoo.cols_text, c.max, c.impl_file, tabtxt(c.dtab)) for c in cases])
+    walk = par(pair.model, ["walk %s %d %s %s" % (c.zoo.cols_text, c.max, getattr(c, "walk_file", c.impl_file), tabtxt(c.dtab)) for c in cases])
     imeta = par(pair.impl, ["meta %s" % c.impl_file for c in cases])
     mmeta = par(pair.model, ["meta %s" % c.impl_file for c in cases])
     iph = par(pair.impl, ["pageheaders %s" % c.impl_file for c in cases])
@@ -113,7 +125,7 @@ def run(chk):
             tie_breaks.append({"case": c.key()[:300], "what": "independent walk failed", "walk": w[:300]})
             continue
         fmd, pages, headers = m.groups()
-        if im != "ok " + fmd:
+        if im != "ok " + fmd and not getattr(c, "skip_meta", False):
             prop_fail.append({"case": c.key()[:2000], "key": {"call": "ReadMetaData"}, "clause": "ReadMetaData differs from the footer an independent parser decodes", "got": im[:500], "want": ("ok " + fmd)[:500]})
         if ip != "ok " + headers:
             prop_fail.append({"case": c.key()[:2000], "key": {"call": "PageHeaders"}, "clause": "PageHeaders is not exactly one header per data page in file order with the walked counts and sizes", "got": ip[:500], "want": ("ok " + headers)[:500]})
